@@ -125,6 +125,13 @@ def U_T3():
                     "any successors (self-loops, parallel edges), every non-empty final set, every numbering")
 
 
+def U_T4r():
+    opts = state_options(range(4), 2, VECT_HALF, unordered=True)
+    return Universe("U-T4r", 4, opts, [], nonempty_subsets([0, 1, 2, 3]),
+                    "all games on 4 states with out-degree <= 2, unordered successors without parallel edges, vector (1/2,1/2) only, "
+                    "every non-empty final set (several, non-absorbing, player-owned finals), every numbering")
+
+
 def _sinks(n_inner):
     lose, win = n_inner, n_inner + 1
     return [(PR, ((1, lose),)), (PR, ((1, win),))], [[win]]
